@@ -11,6 +11,16 @@ var modePrefixes = []string{
 	"<?php __halt_compiler", "<?php //", "<?php #", "<?php /*", "<?php '",
 }
 
+// PHP-mode prefixes (numbers, variables, names, brackets, close tag) and prefixes that
+// start outside PHP (shebang line, inline HTML): followed by the S1 number of bytes.
+var phpPrefixes = []string{
+	"<?php 1", "<?php 0x", "<?php 0b", "<?php 1.", "<?php 1e", "<?php $", "<?php $a", "<?php a", "<?php \\", "<?php (", "<?php ?>", "<?php {}",
+}
+
+var rawPrefixes = []string{
+	"#!\n", "#!a\n<?php ", "a<?php ", "<?php ?>\n", "<?= 1 ?>", "<?php echo 1 ?>\n",
+}
+
 func runC01(c *Check) error {
 	K0, K1, K2 := 3, 2, 2
 	vers := "7.4,5.6"
@@ -21,17 +31,39 @@ func runC01(c *Check) error {
 	fuel := int64(600_000)
 	c.Bounds = append(c.Bounds,
 		bound("S0 raw input: every byte string of length 0..%d", K0),
-		bound("S1 \"<?php \" / \"<?\" / \"<?=\" followed by every byte string of length 0..%d", K1),
-		bound("S2 %d lexical-mode prefixes followed by every byte string of length 0..%d", len(modePrefixes), K2),
+		bound("S1 \"<?php \" / \"<?\" / \"<?=\" / \"<?php\" followed by every byte string of length 0..%d", K1),
+		bound("S2 %d lexical-mode prefixes followed by every byte string of length 0..%d; %d PHP-mode and %d HTML-mode prefixes followed by every byte string of length 0..%d", len(modePrefixes), K2, len(phpPrefixes), len(rawPrefixes), K1),
 		"versions "+vers+" (one representative per behaviour class; class equivalence is C09's claim), callback set and nil on every path",
 		bound("termination: %d SSA instructions per path (linear budget: a normal parse of these inputs uses < 10%%)", int(fuel)))
 	c.Assumptions = append(c.Assumptions, stdAssumptions...)
 	c.Explore(jobTmpl("H_C01", "S0", tmpl(tH('a', 0, K0)), vers, fuel), nil)
-	for _, p := range []string{"<?php ", "<?", "<?="} {
-		c.Explore(jobTmpl("H_C01", "S1", tmpl(tC(p), tH('a', 0, K1)), vers, fuel), nil)
+	var needs []JobNeed
+	for _, p := range []string{"<?php ", "<?", "<?=", "<?php"} {
+		needs = append(needs, JobNeed{Job: jobTmpl("H_C01", "S1", tmpl(tC(p), tH('a', 0, K1)), vers, fuel)})
 	}
 	for _, p := range modePrefixes {
-		c.Explore(jobTmpl("H_C01", "S2", tmpl(tC(p), tH('a', 0, K2)), vers, fuel), nil)
+		needs = append(needs, JobNeed{Job: jobTmpl("H_C01", "S2", tmpl(tC(p), tH('a', 0, K2)), vers, fuel)})
 	}
+	for _, p := range append(append([]string{}, phpPrefixes...), rawPrefixes...) {
+		needs = append(needs, JobNeed{Job: jobTmpl("H_C01", "S2", tmpl(tC(p), tH('a', 0, K1)), vers, fuel)})
+	}
+	c.ExploreNeeds(needs, nil)
+	// the corpus (test snippets + grammar sentences) as written, and with one symbolic
+	// byte inserted / replaced / deleted at every n-th offset (S3)
+	every := tierEvery(c, 12, 3)
+	for _, ver := range []string{"7.4", "5.6"} {
+		whole, err := c.wholeJobs("H_C01", ver, 3_000_000, false)
+		if err != nil {
+			return err
+		}
+		c.ExploreNeeds(whole, nil)
+		win, err := c.windowJobs("H_C01", ver, every, 3_000_000, 120, true)
+		if err != nil {
+			return err
+		}
+		c.ExploreNeeds(win, nil)
+	}
+	c.ExploreNeeds(longShapes("H_C01", 3_000_000), nil)
+	c.Bounds = append(c.Bounds, corpusBound(0, false), bound("S3: test snippets of at most 120 bytes with one arbitrary byte inserted, replaced or deleted at every %d-th offset", every), longBound)
 	return nil
 }
